@@ -243,7 +243,9 @@ package types
 //@   (ite (isMsgRegisterWrkChain m) (wrkchain.Params.FeeRegister p)
 //@   (ite (isMsgRecordWrkChainBlock m) (wrkchain.Params.FeeRecord p)
 //@   (ite (isMsgPurchaseWrkChainStateStorage m) (* (wrkchain.Params.FeePurchaseStorage p) (wrkchain.MsgPurchaseWrkChainStateStorage.Number (asMsgPurchaseWrkChainStateStorage m))) 0))))
-//@ (define-fun-rec wrkSumFee ((ms (Slice Iface)) (n Int) (p wrkchain.Params)) Int
-//@   (ite (<= n 0) 0 (+ (wrkSumFee ms (- n 1) p) (wrkFeeOf (select (sl.arr ms) (- n 1)) p))))
+//@ ; sum of the fees of the first n messages: recursive specification function, unfolded once at every use site
+//@ (declare-fun wrkSumFee ((Array Int Iface) Int wrkchain.Params) Int)
+//@ (define-fun wrkSumFee.def ((ms (Array Int Iface)) (n Int) (p wrkchain.Params)) Int
+//@   (ite (<= n 0) 0 (+ (wrkSumFee ms (- n 1) p) (wrkFeeOf (select ms (- n 1)) p))))
 //@ (define-fun wrkTx ((t Iface)) Bool (exists ((j Int)) (and (<= 0 j) (< j (sl.len (txMsgs t))) (isWrkMsg (select (sl.arr (txMsgs t)) j)))))
 //@ end
